@@ -226,6 +226,9 @@ func genC16(rng *rand.Rand) *tcase {
 			emit(g.pick([]string{"# next golden", "", "#"}))
 		}
 		scen := g.rng.Intn(10)
+		if scen >= 7 && g.chance(50) { // keep a good share of runs free of unrelated failures (fix-point clause)
+			scen = g.rng.Intn(7)
+		}
 		gold := s.files[gname]
 		switch scen {
 		case 0, 1, 2, 3: // plain cmp, mismatch expected (unless the pool happens to hit the same content)
@@ -257,11 +260,13 @@ func genC16(rng *rand.Rand) *tcase {
 					ln := emit("cmp " + srcWord(src2) + " " + g.rel(gname))
 					if alive {
 						act := srcContent(src2)
+						// one golden against two outputs: no content of the entry can satisfy both lines
+						// unless the outputs coincide
+						rec.conflict = true
 						if act != gold {
 							rec.updates[gname] = act
 							recipe = append(recipe, fmt.Sprintf("line %d: second cmp mismatch on %s -> last wins", ln, gname))
 							tags = append(tags, "update-twice")
-							rec.conflict = true
 						}
 					}
 				}
